@@ -125,6 +125,8 @@ def opts_for(r, op):
     if op in ("ufunc",):
         o["how"] = r.choice(["ufunc", "operator"])
         o["zerod"] = r.random() < 0.4
+    if op == "scan":
+        o["axis1"] = r.random() < 0.3
     if op in ("reduce", "scan", "nonzero", "col"):
         o["how"] = r.choice(["method", "np", "positional"] if op == "reduce" else ["method", "np"])
     if op in ("where", "subset"):
